@@ -1054,5 +1054,181 @@ def opaque_set(m: SearchModel, name: str) -> bool:
     return False
 
 
+# --------------------------------------------------------------------------- raising lookups (C13.R6)
+
+
+@dataclass
+class LookupFact:
+    model: SearchModel
+    param: str
+    ok: bool
+    detail: str
+    how: str  # subtree | elements | first-iteration | none
+
+
+def _loop_has_escape(loop: ast.AST) -> bool:
+    """break / return inside a statement loop: later elements can be skipped."""
+    if not isinstance(loop, (ast.For, ast.AsyncFor, ast.While)):
+        return False
+    for s in loop.body:
+        for n in ast.walk(s):
+            if isinstance(n, (ast.Break, ast.Return)):
+                return True
+    return False
+
+
+def _unconditional_in_stmt(node: ast.AST) -> bool:
+    from core.cfg import expr_conditions
+
+    return not expr_conditions(node)
+
+
+def control_conditions(fn: ast.AST, node: ast.AST) -> list:
+    """[(test, polarity)] under which `node` is *reached*: enclosing branch tests and the negations of earlier early exits of
+    the enclosing blocks, each meant at the moment it was evaluated (unlike the path conditions of core/cfg.py nothing is
+    dropped when a tested set is mutated later: `if n in seen: continue; seen.add(n); expand(n)` is reached under `n not in seen`)."""
+    from core.cfg import always_exits, expr_conditions
+
+    st = stmt_of(node)
+    out: list = list(expr_conditions(node))
+    cur: ast.AST | None = st
+    while cur is not None and cur is not fn:
+        par = parent(cur)
+        if par is None:
+            break
+        for fld in ("body", "orelse", "finalbody"):
+            blk = getattr(par, fld, None)
+            if isinstance(blk, list) and any(x is cur for x in blk):
+                for prev in blk:
+                    if prev is cur:
+                        break
+                    if isinstance(prev, ast.If):
+                        if always_exits(prev.body):
+                            out.append((prev.test, False))
+                        if prev.orelse and always_exits(prev.orelse):
+                            out.append((prev.test, True))
+                if isinstance(par, ast.If):
+                    out.append((par.test, fld == "body"))
+                elif isinstance(par, ast.While) and fld == "body":
+                    out.append((par.test, True))
+        cur = par
+    return out
+
+
+def first_iteration_lookup(m: SearchModel, p: str) -> tuple[bool, str]:
+    """The node of filter parameter `p` is in the initial worklist and the first iteration hands it to the raising accessor:
+    unconditional, non-empty initialisation `W = [.., p.identifier, ..]`; nothing but the visited test (on sets that start
+    empty) and the worklist test guards the neighbour lookup; the loop is on every path to the normal exit."""
+    from core.cfg import EXIT
+
+    v = m.fi
+    cfg = cfg_of(v)
+    node_text = f"{p}.{NODE_ATTR}"
+    if m.outer_kind == "comp":
+        return False, "the node loop is a comprehension"
+    if len(m.worklist_inits) != 1:
+        return False, f"the worklist `{m.worklist}` is initialised {len(m.worklist_inits)} times"
+    init = m.worklist_inits[0]
+    val = strip(init.value)
+    if isinstance(val, ast.Call) and isinstance(val.func, ast.Name) and val.func.id == "deque" and val.args:
+        val = strip(val.args[0])
+    if not (isinstance(val, (ast.List, ast.Tuple)) and val.elts and not any(isinstance(x, ast.Starred) for x in val.elts)):
+        return False, f"the worklist starts as `{norm(init.value)}`, not as a non-empty literal list"
+    single = _single_assignments(v.node)
+    if node_text not in [_node_expr_text(x, single) for x in val.elts]:
+        return False, f"the node of `{p}` is not in the initial worklist `{norm(init.value)}`"
+    if not cfg.dominates(init, m.loop):
+        return False, "the worklist initialisation is conditional"
+    # the worklist is not touched between its initialisation and the loop
+    for n in ast.walk(v.node):
+        if isinstance(n, ast.Call) and isinstance(n.func, ast.Attribute) and dotted(n.func.value) == m.worklist and n.func.attr in ("pop", "clear", "remove", "popleft") and not any(a is m.loop for a in ancestors(n)):
+            return False, f"`{norm(n)}` empties the worklist before the loop"
+    if not cfg.dominates(m.loop, EXIT):
+        return False, "a path returns without entering the search loop"
+    # conditions inside the loop under which the neighbour lookup is reached (as evaluated in the first iteration)
+    inner = [(e, pol) for e, pol in control_conditions(v.node, m.neighbour_call) if any(a is m.loop for a in ancestors(e)) or e is getattr(m.loop, "test", None)]
+    g = conds_formula(inner, m.subst)
+    assume = []
+    if isinstance(m.loop, ast.While):
+        assume.append(atom(f"bool({m.worklist})"))  # the literal initial worklist is not empty
+    for a in sorted(atoms_of(g)):
+        for vs in m.visited_sets:
+            if a == f"{m.popped} in {vs}":
+                inits = [n for n in ast.walk(v.node) if (isinstance(n, ast.Assign) and any(isinstance(t, ast.Name) and t.id == vs for t in n.targets)) or (isinstance(n, ast.AnnAssign) and isinstance(n.target, ast.Name) and n.target.id == vs and n.value is not None)]
+                empty = len(inits) == 1 and isinstance(inits[0].value, ast.Call) and isinstance(inits[0].value.func, ast.Name) and inits[0].value.func.id in ("set", "list", "frozenset") and not inits[0].value.args and not inits[0].value.keywords
+                if not empty:
+                    return False, f"the visited set `{vs}` does not start empty: the start node may be skipped"
+                assume.append(f_not(atom(a)))
+    if not implies(f_and(assume), g):
+        return False, f"the neighbour lookup of the first node is guarded by `{show(g)}`"
+    if not _unconditional_in_stmt(m.neighbour_call):
+        return False, "the neighbour lookup sits in a short-circuit / conditional expression"
+    return True, f"the node of `{p}` is expanded by the raising accessor in the first iteration"
+
+
+def lookup_facts(repo: Repo) -> list[LookupFact]:
+    """For every search and every module-filter parameter: does every named module reach a raising graph lookup
+    (`get_all_submodules_of`, or the neighbour accessor in the first iteration) on every path to the normal exit?"""
+    from core.cfg import EXIT
+
+    out: list[LookupFact] = []
+    for m in models(repo):
+        v = m.fi
+        cfg = cfg_of(v)
+        for p in v.param_names:
+            if p == m.graph or (p not in m.filter_params and p not in m.collection_params):
+                continue
+            if p in m.collection_params:
+                subj = m.subject_param
+                good = False
+                why = f"no loop looks up every element of `{p}` by {SUBMODULES}(graph, element)"
+                for st in m.subtree_sites:
+                    if st.collection != p or st.loop is None:
+                        continue
+                    loop_stmt = st.loop if isinstance(st.loop, ast.stmt) else stmt_of(st.loop)
+                    if not cfg.dominates(loop_stmt, EXIT):
+                        why = f"the loop over `{p}` is not on every path to the normal exit"
+                        continue
+                    if _loop_has_escape(st.loop):
+                        why = f"the loop over `{p}` can be left before every element was looked up"
+                        continue
+                    if any(sk != subj for sk in st.implicit_skips):
+                        why = f"elements {st.implicit_skips} of `{p}` are never looked up"
+                        continue
+                    # inside the loop the lookup may only be skipped for the element equal to the subject (looked up on its own)
+                    g_loop = m.guard_of(loop_stmt)
+                    ok_skip = implies(g_loop, st.guard)
+                    if not ok_skip and subj is not None:
+                        a, b = sorted([st.arg, subj])
+                        ok_skip = implies(f_and([g_loop, f_not(atom(f"{a} == {b}"))]), st.guard)
+                    if not ok_skip:
+                        why = f"the lookup of an element of `{p}` is skipped under more than `element == {subj}`: `{show(st.guard)}`"
+                        continue
+                    good = True
+                    break
+                out.append(LookupFact(m, p, good, f"every element of `{p}` is looked up in the graph (raising for an unknown module) on every path" if good else f"an element of `{p}` can escape the raising graph lookup {SUBMODULES}(graph, element): a misspelt module name yields a verdict ({why})", "elements" if good else "none"))
+                continue
+            # one filter
+            direct = [st for st in m.subtree_sites if st.param == p and cfg.dominates(stmt_of(st.call), EXIT) and _unconditional_in_stmt(st.call)]
+            single = _single_assignments(v.node)
+            early = [e for e in m.other_expansions if e.args and _node_expr_text(e.args[0], single) == f"{p}.{NODE_ATTR}" and cfg.dominates(stmt_of(e), EXIT) and _unconditional_in_stmt(e)]
+            if early:
+                out.append(LookupFact(m, p, True, f"the node of `{p}` is handed to the raising accessor `{norm(early[0])}` on every path", "accessor"))
+                continue
+            if direct and m.role != "submodules":
+                out.append(LookupFact(m, p, True, f"`{p}` reaches a raising graph lookup on every path before the function returns", "subtree"))
+                continue
+            if m.role == "submodules" or p == m.subject_param:
+                ok, why = first_iteration_lookup(m, p)
+                if ok:
+                    out.append(LookupFact(m, p, True, why, "first-iteration"))
+                    continue
+                detail = f"`{p}` may not reach the raising accessor ({why})" if m.role == "submodules" else f"a path through {v.name} returns without `{p}` having been looked up in the graph: a rule naming a module that does not exist gets a verdict instead of a lookup error ({why})"
+                out.append(LookupFact(m, p, False, detail, "none"))
+                continue
+            out.append(LookupFact(m, p, False, f"a path through {v.name} returns without `{p}` having been looked up in the graph: a rule naming a module that does not exist gets a verdict instead of a lookup error", "none"))
+    return out
+
+
 def membership(var: str, setvar: str) -> Formula:
     return atom(f"{var} in {setvar}")
